@@ -76,6 +76,7 @@ const std::map<uintptr_t, Block>& ledger();
 const Block* find_block(const void* p);
 size_t live_bytes(int* nblocks = nullptr);     // blocks in state live
 void set_alloc_callbacks(std::function<void(Block&)> on_alloc, std::function<void(Block&)> on_free);
+void set_mutex_unlock_callback(std::function<void()> fn);  // called by the unlocking thread just before a (simulated) mutex is released
 void name_region(const void* p, size_t n, uint64_t id);
 void ledger_set_tracking(bool on);             // track posix_memalign blocks (default on)
 void ledger_forget_all();                      // drop every ledger entry (blocks are left to the allocator); known-finding clean-up only
